@@ -140,7 +140,7 @@ func sigkillOnce(out *bufio.Writer, seed int64, hid int, tmp string, maxn, steps
 		h.printStats()
 		return
 	}
-	b := &bnode{lin: 0, self: 0, dir: dbdir, killAt: -1}
+	b := &bnode{lin: 0, self: 0, dir: dbdir, killAt: -1, vlogPrev: -1}
 	h.bn = append(h.bn, b)
 	// the durable log
 	logged := []string{}
